@@ -3,6 +3,7 @@
 from __future__ import annotations
 
 import ast
+import os
 import time
 import traceback
 
@@ -189,6 +190,7 @@ class Interp(Run, StmtMixin, ExprMixin, CallMixin, BuiltinMixin, LoopMixin, Spec
                     ob.result = "refuted"
                     ob.reason = "weak: counter-model of a ground instantiation of the quantified facts"
                     ob.model = self.extract_model(m3)
+                    self._last_model = m3
                     ob.model["__weak__"] = True
                     ob.model["__skolems__"] = skolem_values(m3)
                 else:
@@ -690,6 +692,11 @@ def verify_unit(world, unit, opts, start=None, split=None):
     (used to spread one big unit over worker processes)."""
     res = UnitResult(unit)
     t0 = time.time()
+    if unit.ghost.get("opts"):
+        # per-unit solver budgets stated in the contract (e.g. a longer feasibility budget for a unit whose
+        # path conditions carry quantified relations)
+        opts = dict(opts)
+        opts.update(unit.ghost["opts"])
     try:
         mi, node, _ = world.locate(unit.target)
         res.source_hash = world.source_hash(node, mi)
@@ -716,7 +723,8 @@ def verify_unit(world, unit, opts, start=None, split=None):
         except PathEnd:
             res.ended += 1
         except Unsupported as e:
-            res.errors.append(("unsupported", str(e)))
+            res.errors.append(("unsupported", str(e) + (("\n" + traceback.format_exc(limit=14))
+                                                       if os.environ.get("TXVC_DEBUG_TRACE") else "")))
         except (BreakSig, ContinueSig) as e:
             res.errors.append(("internal", "stray loop signal"))
         except RecursionError:
